@@ -78,6 +78,92 @@ func runRenameRobustness(p *Prog, prop, repo, verif string) map[string]any {
 	}
 }
 
+// runBenignRefactorings: thorough tier. The stored behaviour-preserving refactorings of this property's code
+// (/verif/refactors/<prop>-R*/patch.diff, written by independent sub-agents) are overlaid one at a time and the check is
+// re-run: each must stay silent. A report is a false alarm of the rule; it is recorded, never turned into a VIOLATION.
+func runBenignRefactorings(prop, repo, verif string) map[string]any {
+	exe, err := os.Executable()
+	if err != nil {
+		return nil
+	}
+	dirs, _ := filepath.Glob(filepath.Join(verif, "refactors", prop+"-R*"))
+	sort.Strings(dirs)
+	type res struct {
+		Name   string   `json:"refactoring"`
+		Status string   `json:"status"` // silent | alarm | stale
+		Alarms []string `json:"alarms,omitempty"`
+	}
+	out := make([]res, len(dirs))
+	sem := make(chan struct{}, 4)
+	var wg sync.WaitGroup
+	for i, d := range dirs {
+		wg.Add(1)
+		go func(i int, d string) {
+			defer wg.Done()
+			sem <- struct{}{}
+			defer func() { <-sem }()
+			r := res{Name: filepath.Base(d), Status: "stale"}
+			defer func() { out[i] = r }()
+			tmp, err := os.MkdirTemp("", "junocheck-refactor-")
+			if err != nil {
+				return
+			}
+			defer os.RemoveAll(tmp)
+			files := filepath.Join(tmp, "files")
+			patch := filepath.Join(d, "patch.diff")
+			pb, err := os.ReadFile(patch)
+			if err != nil {
+				return
+			}
+			seen := map[string]bool{}
+			for _, m := range patchFileRe.FindAllStringSubmatch(string(pb), -1) {
+				rel := m[1]
+				if seen[rel] || strings.Contains(rel, "..") {
+					continue
+				}
+				seen[rel] = true
+				if src, err := os.ReadFile(filepath.Join(repo, rel)); err == nil {
+					os.MkdirAll(filepath.Dir(filepath.Join(files, rel)), 0o755)
+					os.WriteFile(filepath.Join(files, rel), src, 0o644)
+				}
+			}
+			os.MkdirAll(files, 0o755)
+			if _, err := exec.Command("patch", "-p1", "-s", "-N", "--no-backup-if-mismatch", "-d", files, "-i", patch).CombinedOutput(); err != nil {
+				return
+			}
+			sv := filepath.Join(tmp, "verif")
+			os.MkdirAll(sv, 0o755)
+			if kb, err := os.ReadFile(filepath.Join(verif, "known_findings.json")); err == nil {
+				os.WriteFile(filepath.Join(sv, "known_findings.json"), kb, 0o644)
+			}
+			cmd := exec.Command(exe, "-prop", prop, "-repo", repo, "-verif", sv, "-tier", "quick", "-nofixtures")
+			cmd.Env = append(os.Environ(), "VERIF_MUTANT_DIR="+files, "VERIF_TIER=quick")
+			o, _ := cmd.CombinedOutput()
+			if strings.Contains(string(o), "BROKEN-LOAD") {
+				return
+			}
+			r.Status = "silent"
+			for _, m := range regexp.MustCompile(`(?m)^(?:VIOLATION|UNDECIDED) (C\d\d/[\w-]+ construct=.{0,140})`).FindAllStringSubmatch(string(o), -1) {
+				r.Status = "alarm"
+				r.Alarms = append(r.Alarms, m[1])
+			}
+		}(i, d)
+	}
+	wg.Wait()
+	n := map[string]int{}
+	for _, r := range out {
+		n[r.Status]++
+		for _, a := range r.Alarms {
+			fmt.Printf("ROBUSTNESS-ALARM property=%s on behaviour-preserving refactoring %s: %s\n", prop, r.Name, a)
+		}
+	}
+	return map[string]any{
+		"what":    "behaviour-preserving refactorings of this property's code written by independent sub-agents (extract/inline helper, if→switch, early returns, renames, loop→library call, error wrapping, file moves …), overlaid one at a time; each must stay silent",
+		"silent":  n["silent"], "alarm": n["alarm"], "stale": n["stale"],
+		"results": out,
+	}
+}
+
 func mutantOverlay(repo string) map[string][]byte {
 	dir := os.Getenv("VERIF_MUTANT_DIR")
 	if dir == "" {
